@@ -23,7 +23,7 @@ IRFLAGS = ['-fno-vectorize', '-fno-slp-vectorize', '-fno-unroll-loops', '-fno-di
            '-Wno-everything']
 CBMC_SAFETY = ['--unwinding-assertions', '--signed-overflow-check', '--undefined-shift-check',
                '--drop-unused-functions', '--no-malloc-may-fail', '--no-standard-checks', '--bounds-check', '--pointer-check',
-               '--div-by-zero-check']
+               '--div-by-zero-check', '--object-bits', '12']
 NCPU = os.cpu_count() or 8
 print_lock = threading.Lock()
 
@@ -43,7 +43,7 @@ INLINE_OK = re.compile(r'basic_streambuf|char_traits|_ZSt4moveI|_ZSt7forwardI|in
                        r'_ZSt3getI|_ZNSt5tupleI|_ZNSt11_Tuple_impl|_ZNSt10_Head_base|_ZSt12__get_helper|_ZSt4swapI|'
                        r'_ZNKSt6atomic|_ZNSt6atomic|_ZNSt13__atomic_base|_ZNKSt13__atomic_base|_ZStanSt12memory_order|_ZSt23__cmpexch_failure_order')
 
-def sel_mark(text, keep_noinline, extra_inline=None):
+def sel_mark(text, keep_noinline, extra_inline=None, std_too=True):
     """sel mode: add noinline to every std::/__gnu_cxx:: function definition except whitelisted helpers and to the
     functions the harness stubs, so that opt -O1 keeps them as call boundaries."""
     attr_groups = {}
@@ -56,7 +56,7 @@ def sel_mark(text, keep_noinline, extra_inline=None):
             name = m.group(1) if m else ''
             am = re.search(r'#(\d+)(?: (?:align \d+ |comdat |personality[^{]*|section "[^"]*" )*)?\s*(?:personality[^{]*)?(?:!dbg ![0-9]+ )?\{$', ln)
             is_std = name.startswith(('_ZNSt', '_ZNKSt', '_ZSt', '_ZN9__gnu_cxx', '_ZNK9__gnu_cxx', '_ZNSa', '_ZNKSa', '_ZStpl', '_ZSteq', '_ZStne', '_ZStlt'))
-            want = (is_std and not INLINE_OK.search(name) and not (extra_inline and extra_inline.search(name))) or name in keep_noinline
+            want = (std_too and is_std and not INLINE_OK.search(name) and not (extra_inline and extra_inline.search(name))) or name in keep_noinline
             if want and am and 'alwaysinline' not in attr_groups.get(am.group(1), '') and ' noinline' not in ln:
                 i = ln.rfind('#' + am.group(1))
                 ln = ln[:i] + 'noinline ' + ln[i:]
@@ -65,40 +65,57 @@ def sel_mark(text, keep_noinline, extra_inline=None):
     return '\n'.join(out)
 
 def build_unit(work, name, u):
-    """returns dict(c=path, info=dict)"""
-    src = u['src'] if os.path.isabs(u['src']) else os.path.join(VERIF, u['src'])
-    src = src.replace('/repo/', REPO + '/') if src.startswith('/repo/') else src
+    """returns dict(c=path, info=dict).  u['src'] may be one source file or a list (linked with llvm-link-14)."""
+    srcs = u['src'] if isinstance(u['src'], (list, tuple)) else [u['src']]
     ll = os.path.join(work, name + '.ll')
     mode = u.get('mode', 'inl')
     t0 = time.time()
     extra = u.get('cflags', [])
-    if mode == 'inl':
-        r = sh([CLANG] + CXXDEFS + extra + ['-O1'] + IRFLAGS + [src, '-o', ll])
-        if r.returncode: raise Broken('clang failed for unit %s:\n%s' % (name, r.stdout[-3000:]))
+    parts = []
+    for i, s_ in enumerate(srcs):
+        src = s_ if os.path.isabs(s_) else os.path.join(VERIF, s_)
+        src = src.replace('/repo/', REPO + '/') if src.startswith('/repo/') else src
+        part = os.path.join(work, '%s.part%d.ll' % (name, i))
+        two_stage = mode != 'inl' or bool(u.get('noinline'))
+        fl = ['-O1'] if not two_stage else ['-O1', '-Xclang', '-disable-llvm-passes']
+        r = sh([CLANG] + CXXDEFS + extra + fl + IRFLAGS + [src, '-o', part])
+        if r.returncode: raise Broken('clang failed for unit %s (%s):\n%s' % (name, s_, r.stdout[-3000:]))
+        parts.append(part)
+    linked = os.path.join(work, name + '.linked.ll')
+    if len(parts) > 1:
+        r = sh(['llvm-link-14', '-S'] + parts + ['-o', linked])
+        if r.returncode: raise Broken('llvm-link failed for unit %s:\n%s' % (name, r.stdout[-3000:]))
+        for p_ in parts: os.unlink(p_)
     else:
-        raw = os.path.join(work, name + '.raw.ll')
-        r = sh([CLANG] + CXXDEFS + extra + ['-O1', '-Xclang', '-disable-llvm-passes'] + IRFLAGS + [src, '-o', raw])
-        if r.returncode: raise Broken('clang failed for unit %s:\n%s' % (name, r.stdout[-3000:]))
-        txt = sel_mark(open(raw).read(), set(u.get('stubs', [])) | set(u.get('noinline', [])),
-                       re.compile(u['extra_inline']) if u.get('extra_inline') else None)
+        os.rename(parts[0], linked)
+    if mode == 'inl' and not u.get('noinline'):
+        if len(srcs) > 1:
+            r = sh(['opt-14', '-S', '-O1', '-vectorize-loops=false', '-vectorize-slp=false', linked, '-o', ll])
+            if r.returncode: raise Broken('opt failed for unit %s:\n%s' % (name, r.stdout[-3000:]))
+            os.unlink(linked)
+        else:
+            os.rename(linked, ll)
+    else:
+        txt = sel_mark(open(linked).read(), set(u.get('stubs', [])) | set(u.get('noinline', [])),
+                       re.compile(u['extra_inline']) if u.get('extra_inline') else None, std_too=(mode != 'inl'))
         marked = os.path.join(work, name + '.marked.ll')
         open(marked, 'w').write(txt)
         r = sh(['opt-14', '-S', '-O1', '-vectorize-loops=false', '-vectorize-slp=false', marked, '-o', ll])
         if r.returncode: raise Broken('opt failed for unit %s:\n%s' % (name, r.stdout[-3000:]))
-        os.unlink(raw); os.unlink(marked)
+        os.unlink(linked); os.unlink(marked)
     c = os.path.join(work, name + '.c'); info = os.path.join(work, name + '.info.json')
     cmd = [sys.executable, os.path.join(ENGINE, 'ir2c.py'), c, ll, '--roots', ','.join(u['roots']), '--info', info]
     if u.get('stubs'): cmd += ['--stub', ','.join(u['stubs'])]
     r = sh(cmd)
     if r.returncode: raise Broken('ir2c failed for unit %s:\n%s' % (name, r.stdout[-3000:]))
-    inf = json.load(open(info)); inf['seconds'] = round(time.time() - t0, 2); inf['mode'] = mode; inf['source'] = u['src']
+    inf = json.load(open(info)); inf['seconds'] = round(time.time() - t0, 2); inf['mode'] = mode; inf['source'] = ', '.join(srcs)
     return {'c': c, 'info': inf, 'll': ll}
 
 # ----------------------------------------------------------------------------- cbmc
 def cbmc_run(work, tag, files, defs, opts, timeout, memgb):
     """run cbmc with --json-ui; returns dict(status, props=[{name,desc,status,loc}], traces={name: trace}, seconds, rss_mb, out)"""
     out = os.path.join(work, tag + '.json'); tm = os.path.join(work, tag + '.time')
-    cmd = ['cbmc'] + files + ['-I', MODELS, '-I', HARNESS] + ['-D%s=%s' % (k, v) if v is not None else '-D' + k for k, v in defs.items()]
+    cmd = ['cbmc'] + files + ['-I', MODELS, '-I', HARNESS, '-I', work] + ['-D%s=%s' % (k, v) if v is not None else '-D' + k for k, v in defs.items()]
     cmd += opts + ['--json-ui', '--trace']
     shcmd = 'ulimit -v %d; exec /usr/bin/time -o %s -f "%%M %%e" %s > %s 2>&1' % (int(memgb * 1024 * 1024), tm, ' '.join("'%s'" % c for c in cmd), out)
     t0 = time.time()
@@ -141,6 +158,22 @@ def cbmc_run(work, tag, files, defs, opts, timeout, memgb):
         if mm: res['vars'] = int(mm.group(1)); res['clauses'] = int(mm.group(2))
     return res
 
+def harness_loops(work, tag, files, defs):
+    """names of the loops that live in harness code or in the rt/vp support headers (constant-bounded by construction)"""
+    cmd = ['cbmc'] + files + ['-I', MODELS, '-I', HARNESS, '-I', work] + ['-D%s=%s' % (k, v) if v is not None else '-D' + k for k, v in defs.items()] + ['--show-loops', '--json-ui']
+    r = subprocess.run(cmd, stdout=subprocess.PIPE, stderr=subprocess.DEVNULL, text=True)
+    out = []
+    try:
+        for item in json.loads(r.stdout):
+            for lp in item.get('loops', []):
+                f = lp.get('sourceLocation', {}).get('file', '')
+                b = os.path.basename(f)
+                if (os.path.dirname(os.path.abspath(f)) == HARNESS and b.endswith('.c')) or b in ('rt.h', 'vp.h'):
+                    out.append(lp['name'])
+    except Exception:
+        pass
+    return out
+
 def trace_inputs(trace):
     ins = []
     for st in trace:
@@ -161,25 +194,34 @@ class Native:
     def __init__(self, work):
         self.work = work; self.lock = threading.Lock(); self.real = {}; self.bins = {}
     def real_objs(self, srcs, san=True):
-        objs = []
-        for s in srcs:
-            s = s.replace('/repo/', REPO + '/') if s.startswith('/repo/') else (s if os.path.isabs(s) else os.path.join(VERIF, s))
-            key = (s, san)
+        """g++ objects of the real sources (built once per run, in parallel)"""
+        def norm(s): return s.replace('/repo/', REPO + '/') if s.startswith('/repo/') else (s if os.path.isabs(s) else os.path.join(VERIF, s))
+        keys = [(norm(s), san) for s in srcs]
+        def build(key):
+            s, san_ = key
             with self.lock:
-                if key not in self.real:
-                    o = os.path.join(self.work, 'real_%s_%s.o' % (hashlib.md5(s.encode()).hexdigest()[:8], 'san' if san else 'plain'))
-                    fl = ['-fsanitize=address,undefined', '-fno-sanitize=vptr', '-fno-sanitize-recover=undefined', '-fno-omit-frame-pointer'] if san else []
-                    r = sh(['g++', '-c', '-O1', '-g'] + fl + [d for d in CXXDEFS if d != '-DPISTACHE_VERIF_HOOKS'] + ['-DPISTACHE_VERIF_HOOKS', '-w', s, '-o', o])
-                    if r.returncode: raise Broken('g++ failed for %s:\n%s' % (s, r.stdout[-3000:]))
-                    self.real[key] = o
-                objs.append(self.real[key])
-        return objs
+                ev = self.real.get(key)
+                if ev is None:
+                    ev = self.real[key] = {'done': threading.Event(), 'obj': None, 'err': None}; mine = True
+                else: mine = False
+            if not mine:
+                ev['done'].wait(); return ev
+            o = os.path.join(self.work, 'real_%s_%s.o' % (hashlib.md5(s.encode()).hexdigest()[:8], 'san' if san_ else 'plain'))
+            fl = ['-fsanitize=address,undefined', '-fno-sanitize=vptr', '-fno-sanitize-recover=undefined', '-fno-omit-frame-pointer'] if san_ else []
+            r = sh(['g++', '-c', '-O1'] + fl + CXXDEFS + ['-w', s, '-o', o])
+            if r.returncode: ev['err'] = 'g++ failed for %s:\n%s' % (s, r.stdout[-3000:])
+            ev['obj'] = o; ev['done'].set(); return ev
+        with cf.ThreadPoolExecutor(max_workers=12) as ex:
+            evs = list(ex.map(build, keys))
+        for ev in evs:
+            if ev['err']: raise Broken(ev['err'])
+        return [ev['obj'] for ev in evs]
     def build_real(self, tag, harness_c, defs, srcs, extra_cc=()):
         """harness (C) compiled natively and linked with the real g++ objects of srcs (ASan/UBSan)"""
         exe = os.path.join(self.work, tag + '.real')
         ho = exe + '.h.o'
         dd = ['-D%s=%s' % (k, v) if v is not None else '-D' + k for k, v in defs.items()]
-        r = sh(['gcc', '-c', '-O0', '-g', '-fsanitize=address,undefined', '-fno-sanitize=vptr', '-w', '-DNATIVE', '-DREAL', '-I', MODELS, '-I', HARNESS] + dd + [harness_c, '-o', ho])
+        r = sh(['gcc', '-c', '-O0', '-g', '-fsanitize=address,undefined', '-fno-sanitize=vptr', '-w', '-DNATIVE', '-DREAL', '-I', MODELS, '-I', HARNESS, '-I', self.work] + dd + [harness_c, '-o', ho])
         if r.returncode: raise Broken('gcc failed for native harness %s:\n%s' % (tag, r.stdout[-3000:]))
         objs = self.real_objs(list(srcs) + list(extra_cc))
         r = sh(['g++', '-fsanitize=address,undefined', ho] + objs + ['-o', exe, '-lpthread'])
@@ -189,7 +231,7 @@ class Native:
         """harness + generated C + models compiled natively (no real code): used for translation validation"""
         exe = os.path.join(self.work, tag + '.model')
         dd = ['-D%s=%s' % (k, v) if v is not None else '-D' + k for k, v in defs.items()]
-        r = sh(['gcc', '-O1', '-g', '-w', '-ftrivial-auto-var-init=pattern', '-fno-builtin', '-DNATIVE', '-I', MODELS, '-I', HARNESS] + dd + [harness_c] + unit_c + ['-o', exe])
+        r = sh(['gcc', '-O1', '-g', '-w', '-ftrivial-auto-var-init=pattern', '-fno-builtin', '-DNATIVE', '-I', MODELS, '-I', HARNESS, '-I', self.work] + dd + [harness_c] + unit_c + ['-o', exe])
         if r.returncode: raise Broken('gcc failed for model build %s:\n%s' % (tag, r.stdout[-3000:]))
         return exe
 
@@ -217,6 +259,19 @@ def classify_native(rc, out, err):
     return False, 'exit %s' % rc
 
 # ----------------------------------------------------------------------------- main driver
+def build_offsets(spec, work):
+    srcs = getattr(spec, 'OFFSETS', [])
+    out = os.path.join(work, 'offsets.h')
+    txt = ''
+    for s_ in srcs:
+        exe = os.path.join(work, 'offgen_' + os.path.basename(s_).replace('.cc', ''))
+        r = sh(['g++', '-w'] + CXXDEFS + [os.path.join(VERIF, s_), '-o', exe])
+        if r.returncode: raise Broken('offsets generator %s failed to compile:\n%s' % (s_, r.stdout[-2000:]))
+        r = subprocess.run([exe], stdout=subprocess.PIPE, text=True)
+        if r.returncode: raise Broken('offsets generator %s failed' % s_)
+        txt += r.stdout
+    open(out, 'w').write(txt)
+
 def load_spec(pid):
     p = os.path.join(VERIF, 'props', pid + '.py')
     sp = importlib.util.spec_from_file_location('prop_' + pid, p)
@@ -245,8 +300,10 @@ def main():
     rc = 2
     try:
         if a.replay:
+            build_offsets(spec, work)
             rc = do_replay(spec, pid, a.replay, work)
         else:
+            build_offsets(spec, work)
             rc = do_check(spec, pid, tier, seed, work, a, t_start)
     except Broken as e:
         log('BROKEN property=%s: %s' % (pid, e)); rc = 2
@@ -307,6 +364,14 @@ def do_check(spec, pid, tier, seed, work, a, t_start):
         if kind == 'witness': defs['WITNESS'] = None
         tag = '%s.%s%s' % (h['name'], kind, '.' + finding['id'] if finding else '')
         opts = cbmc_opts(h)
+        hl = harness_loops(work, tag, files_of(h), defs)
+        if hl:
+            us = dict(h.get('unwindset', {}))
+            for nm in hl: us.setdefault(nm, h.get('hunwind', 24))
+            opts = [o for o in opts]
+            if '--unwindset' in opts:
+                i = opts.index('--unwindset'); del opts[i:i + 2]
+            opts += ['--unwindset', ','.join('%s:%d' % kv for kv in us.items())]
         r = cbmc_run(work, tag, files_of(h), defs, opts, h.get('timeout', 600 if tier == 'quick' else 3000), h.get('memgb', 12))
         r['harness'] = h['name']; r['kind'] = kind; r['defs'] = defs
         return r
@@ -453,7 +518,7 @@ def translation_validate(native, h, units, seed, findings):
     objs = native.real_objs(tv['real'], san=False)
     exe_r = os.path.join(native.work, tag + '.realplain')
     dd = ['-D%s=%s' % (k, v) if v is not None else '-D' + k for k, v in defs.items()]
-    r = sh(['gcc', '-c', '-O0', '-w', '-DNATIVE', '-DREAL', '-I', MODELS, '-I', HARNESS] + dd + [hfile, '-o', exe_r + '.o'])
+    r = sh(['gcc', '-c', '-O0', '-w', '-DNATIVE', '-DREAL', '-I', MODELS, '-I', HARNESS, '-I', native.work] + dd + [hfile, '-o', exe_r + '.o'])
     if r.returncode: raise Broken('gcc failed (tv real) %s: %s' % (h['name'], r.stdout[-2000:]))
     r = sh(['g++', exe_r + '.o'] + objs + ['-o', exe_r, '-lpthread'])
     if r.returncode: raise Broken('link failed (tv real) %s: %s' % (h['name'], r.stdout[-2000:]))
